@@ -61,6 +61,25 @@ async def main():
             env.update(case["env"])
         params = StdioParameters(command=sys.executable,
                                  args=["-B", os.path.join(ROOT, "children", "misbehave.py"), case["behaviour"]], env=env)
+    shared_client = None
+    if case.get("prior_uses"):
+        # the same client object has been used (entered and left) before: each earlier child must be gone too
+        from chuk_mcp.transports.stdio.stdio_client import StdioClient
+        shared_client = StdioClient(params)
+        obs["prior"] = []
+        for u in range(int(case["prior_uses"])):
+            rec = {}
+            try:
+                async with shared_client:
+                    r0, w0 = shared_client.get_streams()
+                    try:
+                        rec["ping"] = repr(await send_message(r0, w0, "ping", timeout=1.5))[:40]
+                    except BaseException as e:  # noqa
+                        rec["ping"] = "ERR " + type(e).__name__
+            except BaseException as e:  # noqa
+                rec["error"] = repr(e)[:100]
+            rec["state_at_exit"] = proc_state(obs["pids"][-1]) if obs["pids"] else "no-child"
+            obs["prior"].append(rec)
     companion = {}
     if case.get("companion"):
         # another, healthy stdio client of the same process, opened earlier and still in use afterwards
@@ -96,7 +115,10 @@ async def main():
     @asynccontextmanager
     async def open_client():
         api = case.get("api", "stdio_client")
-        if api == "transport":
+        if shared_client is not None:
+            async with shared_client:
+                yield shared_client.get_streams()
+        elif api == "transport":
             from chuk_mcp.transports.stdio.transport import StdioTransport
             async with StdioTransport(params) as tr:
                 yield await tr.get_streams()
